@@ -60,6 +60,11 @@ def cases(chk):
         yield "roundtrip", {"tree": to_json(t)}
     for t in _list_cases():
         yield "roundtrip", {"tree": to_json(t)}
+    # list sizes around 2^15 (a 16-bit size read as a signed number turns negative there): children, and attributes (list size 2n + 1)
+    for nk in ((32768,) if chk.quick() else (32767, 32768, 40000)):
+        yield "roundtrip", {"tree": to_json(("list", [], None, [("i", [], None, [])] * nk))}
+    for na in ((16384,) if chk.quick() else (16383, 16384)):
+        yield "roundtrip", {"tree": to_json(("n", [("k%d" % i, "v") for i in range(na)], b"tail", []))}
     if not chk.quick():   # ~45 s: the real decoder's data.pop(0) is quadratic in the frame size
         yield "roundtrip", {"tree": to_json(("list", [], None, [("i", [], None, [])] * 65535))}
     yield "listlimit", {"kids": 65536}
